@@ -287,6 +287,10 @@ def audit_queries(ctx, dn, G, m, tag="", ts=None, full=True):
     rng = ctx.rng
     for t in [None] + list(ts):
         S = m.static(t)
+        # re-entrancy: a sweep over the interactions is started, left suspended while all the other queries of
+        # this instant run, and finished afterwards; both the queries and the resumed sweep must be exact
+        held = G.interactions_iter(t=t) if t is not None else G.interactions_iter()
+        first = next(held, None)
         some = rng.sample(nodes, min(2, len(nodes)))
         one = some[0]
         nbunches = [None, [one], list(some), list(some) + ["__nope__"]]
@@ -464,6 +468,37 @@ def audit_queries(ctx, dn, G, m, tag="", ts=None, full=True):
                 out["dyngraph-selfloop-counted-once"] = 0 if (mm == 0 or n <= 1) else 2 * mm / (n * (n - 1))
             return out
         ctx.expect(tag + "dn.density(G,t)", dn.density(G, t), dens, detail, deviants=devdens, eq=_close)
+
+        rest = list(held)
+        swept = ([first] if first is not None else []) + rest
+        if m.directed:
+            expsw = Counter(list(S.out_edges()))
+
+            def devsw(S=S):
+                order = [n for n in G.nodes() if n in S]
+                seen, out = set(), []
+                for n in order:
+                    for nbr in S.successors(n):
+                        if nbr not in seen:
+                            out.append((n, nbr))
+                    seen.add(n)
+                return {"digraph-interactions-drops-backward-edge": Counter(out)}
+            ctx.expect(tag + "interactions_iter(suspended-and-resumed)", Counter((x[0], x[1]) for x in swept), expsw,
+                       detail, deviants=devsw)
+        else:
+            ctx.expect(tag + "interactions_iter(suspended-and-resumed)", _ms(((x[0], x[1]) for x in swept), m),
+                       _ms(list(S.edges()), m), detail)
+        # an nbunch may list a node several times: the answer is still restricted to the listed nodes
+        dup = list(some) * (len(nodes) // max(1, len(some)) + 1)
+        ctx.expect(tag + "degree(nbunch-with-repeats,t)", G.degree(dup, t), {n: degS[n] for n in some},
+                   dict(t=t, nbunch=dup),
+                   deviants=(lambda: {"dyngraph-selfloop-counted-once":
+                                      {n: _dev_degree(S, m)[n] for n in some}}) if loops else None)
+        if m.directed:
+            ctx.expect(tag + "in_degree(nbunch-with-repeats,t)", G.in_degree(dup, t),
+                       {n: S.in_degree(n) for n in some}, dict(t=t, nbunch=dup))
+            ctx.expect(tag + "out_degree(nbunch-with-repeats,t)", G.out_degree(dup, t),
+                       {n: S.out_degree(n) for n in some}, dict(t=t, nbunch=dup))
 
         if full:
             # non_interactions: set of pairs (unordered on DynGraph).  For a given t the statement does
